@@ -110,6 +110,18 @@ func c20run(c c20case) (o c20obs) {
 		case "rsh64":
 			v, cy := a.RightShift64(c.N, limbs(c.B, 1)[0])
 			return L([]uint64{v, cy})
+		case "zero":
+			return L(a.Zero().VerifLimbs())
+		case "max":
+			return L(a.MaxValue().VerifLimbs())
+		case "set64":
+			return L(a.Set64(limbs(c.B, 1)[0]).VerifLimbs())
+		case "zerouint":
+			return L(obifp.ZeroUint[obifp.Uint64]().VerifLimbs())
+		case "oneuint":
+			return L(obifp.OneUint[obifp.Uint64]().VerifLimbs())
+		case "from64":
+			return L(obifp.From64[obifp.Uint64](limbs(c.B, 1)[0]).VerifLimbs())
 		}
 	case 128:
 		a := obifp.VerifMake128([2]uint64(limbs(c.A, 2)))
@@ -176,6 +188,18 @@ func c20run(c c20case) (o c20obs) {
 			return I(b2i(a.IsZero()))
 		case "as64":
 			return L([]uint64{a.AsUint64()})
+		case "zero":
+			return L(a.Zero().VerifLimbs())
+		case "max":
+			return L(a.MaxValue().VerifLimbs())
+		case "set64":
+			return L(a.Set64(b64).VerifLimbs())
+		case "zerouint":
+			return L(obifp.ZeroUint[obifp.Uint128]().VerifLimbs())
+		case "oneuint":
+			return L(obifp.OneUint[obifp.Uint128]().VerifLimbs())
+		case "from64":
+			return L(obifp.From64[obifp.Uint128](b64).VerifLimbs())
 		}
 	case 256:
 		a := obifp.VerifMake256([4]uint64(limbs(c.A, 4)))
@@ -223,9 +247,22 @@ func c20run(c c20case) (o c20obs) {
 			return I(b2i(a.IsZero()))
 		case "as64":
 			return L([]uint64{a.AsUint64()})
+		case "zero":
+			return L(a.Zero().VerifLimbs())
+		case "max":
+			return L(a.MaxValue().VerifLimbs())
+		case "set64":
+			return L(a.Set64(limbs(c.B, 1)[0]).VerifLimbs())
+		case "zerouint":
+			return L(obifp.ZeroUint[obifp.Uint256]().VerifLimbs())
+		case "oneuint":
+			return L(obifp.OneUint[obifp.Uint256]().VerifLimbs())
+		case "from64":
+			return L(obifp.From64[obifp.Uint256](limbs(c.B, 1)[0]).VerifLimbs())
 		}
 	}
-	panic(fmt.Sprintf("c20: unknown op %d/%s", c.W, c.Op))
+	// not a panic of the code under test: an unknown operation must never be mistaken for one
+	return c20obs{Kind: fmt.Sprintf("unknown-op %d/%s", c.W, c.Op)}
 }
 
 func init() {
